@@ -210,7 +210,7 @@ def sync_part(st, ctx, out):
     return out
 
 
-ENLARGEABLE = ("zip", "map", "filter", "filterfalse", "enumerate", "accumulate", "batched", "chain", "dropwhile",
+ENLARGEABLE = ("groupby", "zip", "map", "filter", "filterfalse", "enumerate", "accumulate", "batched", "chain", "dropwhile",
                "takewhile", "islice", "pairwise", "zip_longest", "all", "any", "min", "max", "list", "tuple", "set",
                "sorted", "reduce", "nlargest", "nsmallest")
 
@@ -231,7 +231,11 @@ def enlarge(ch, g, spec):
     ks = g.cfg.keyspace
     for plan in spec.srcs:
         base = g.uid
-        extra = [Item(i % ks, base + i + 1) for i in range(size)]
+        if spec.tool == "groupby":
+            # long runs of equal keys: skipping an unconsumed group discards hundreds of items
+            extra = [Item((i // 350) % max(ks, 2), base + i + 1) for i in range(size)]
+        else:
+            extra = [Item(i % ks, base + i + 1) for i in range(size)]
         g.uid += size
         plan.items = list(plan.items) + extra
         if plan.flavour == "tuple":
